@@ -204,6 +204,49 @@ func c14Cases() []c14Case {
 		c14Case{desc: "style-bound-nonstring", tpl: `<p style="color: red" :style="n">t</p>`, data: map[string]any{"n": 5}, want: map[string]string{"style": ""}, style: map[string]string{"color": "red"}},
 		c14Case{desc: "vshow-vs-bound-style", tpl: `<p v-show="f" :style="{display: 'block', color: 'red'}">t</p>`, data: map[string]any{"f": false}, want: map[string]string{"style": ""}, style: map[string]string{"display": "none", "color": "red"}},
 	)
+	// f2. v-show x style: v-show only ever ADDS display:none (when its condition is falsy); a truthy v-show leaves every declaration — a
+	// display:none written in the static style or contributed by a bound style included — exactly as it would be without the directive
+	statics := []struct{ src string; decl map[string]string }{
+		{"", nil}, {"color: red", map[string]string{"color": "red"}}, {"display: none", map[string]string{"display": "none"}},
+		{"display:none;color:red", map[string]string{"display": "none", "color": "red"}}, {"color: red; display: none", map[string]string{"color": "red", "display": "none"}},
+		{"display: block; margin: 0", map[string]string{"display": "block", "margin": "0"}},
+	}
+	bounds := []struct{ attr string; decl map[string]string }{
+		{"", nil}, {`:style="{display: 'none'}"`, map[string]string{"display": "none"}}, {`:style="{color: 'blue'}"`, map[string]string{"color": "blue"}},
+		{`:style="{display: 'none', fontSize: '12px'}"`, map[string]string{"display": "none", "font-size": "12px"}}, {`:style="'display: none'"`, map[string]string{"display": "none"}},
+		{`:style="{display: 'flex'}"`, map[string]string{"display": "flex"}},
+	}
+	for si, st := range statics {
+		for bi, b := range bounds {
+			for _, show := range []bool{true, false} {
+				decl := map[string]string{}
+				for k, v := range st.decl {
+					decl[k] = v
+				}
+				for k, v := range b.decl {
+					decl[k] = v
+				}
+				if !show {
+					decl["display"] = "none"
+				}
+				want := map[string]string{}
+				if len(decl) > 0 {
+					want["style"] = ""
+				}
+				sa := ""
+				if st.src != "" {
+					sa = ` style="` + st.src + `"`
+				}
+				for vi, vs := range []string{`v-show="f"`, `v-show="f" v-if="t"`, `v-show="n > 0"`} {
+					if vi > 0 && (si+bi)%3 != 0 {
+						continue
+					}
+					out = append(out, c14Case{desc: fmt.Sprintf("vshow-style:%d:%d:%v:%d", si, bi, show, vi), tpl: `<p` + sa + ` ` + b.attr + ` ` + vs + `>t</p>`,
+						data: map[string]any{"f": show, "t": true, "n": map[bool]int{true: 1, false: 0}[show]}, want: want, style: decl})
+				}
+			}
+		}
+	}
 	// g. directives never serialised
 	dirs := []string{`v-if="y"`, `v-for="q in one"`, `v-show="y"`, `v-once`, `v-pre`, `v-html="y"`, `v-text="y"`, `v-keep`, `:title="y"`, `v-bind:title="y"`}
 	for i, d1 := range dirs {
@@ -228,6 +271,13 @@ func c14Cases() []c14Case {
 	for _, val := range []string{"plain", "y", "{{ y }}", "a {{ y }} b", "{on: true}", "x | upper"} {
 		out = append(out, c14Case{desc: "bracket:" + val, tpl: `<p [data-k]="` + val + `" [:x]="` + val + `">t</p>`, data: map[string]any{"y": "yy", "x": "xx"}, want: map[string]string{"data-k": val, ":x": val}})
 	}
+	// b0. static attributes whose NAME contains a colon, an at-sign or a v- prefix that is no directive of this engine are static attributes
+	out = append(out,
+		c14Case{desc: "static-colon-names", tpl: `<p xml:lang="sl" x-on:click="open = !open" :lang="l" hx-on:click="go" x-bind:hidden="closed">t</p>`, data: map[string]any{"l": "en", "sl": "WRONG", "go": "WRONG", "closed": "WRONG"},
+			want: map[string]string{"xml:lang": "sl", "x-on:click": "open = !open", "lang": "en", "hx-on:click": "go", "x-bind:hidden": "closed"}, order: []string{"xml:lang", "x-on:click", "hx-on:click", "x-bind:hidden"}},
+		c14Case{desc: "static-odd-names", tpl: `<p @click="go" v-cloak="" v-on:click="go" v-model="m" data-a.b="c" on:x="y">t</p>`, data: map[string]any{"go": "WRONG", "m": "WRONG", "y": "WRONG"},
+			want: map[string]string{"@click": "go", "v-cloak": "", "v-on:click": "go", "v-model": "m", "data-a.b": "c", "on:x": "y"}},
+	)
 	// b. statics in place, with interpolated static
 	out = append(out, c14Case{desc: "static-in-place:interp", tpl: `<p a="1" b="x{{ y }}z" c="3" :d="y" e="5">t</p>`, data: map[string]any{"y": "yy"}, want: map[string]string{"a": "1", "b": "xyyz", "c": "3", "d": "yy", "e": "5"}, order: []string{"a", "b", "c", "e"}})
 	sort.SliceStable(out, func(i, j int) bool { return false })
